@@ -78,8 +78,8 @@ def run(ck):
                                           allow=(lambda r_: r_[0] == "eps" and abs(float(r_[1]) - 1e-8) < 1e-20) if cls == "DensityMatrix" else None)
                         if isinstance(g, VTens) and g.shape is not None:
                             want = (layout_dim(it, it.get_attr(s, n, None)),)
-                            ok = len(g.shape) == 1 and __import__("qsa.values", fromlist=["dims_equal"]).dims_equal(g.shape[0], want[0])
-                            ck.check(bool(ok), "C03.R2", inst + ":%s gradient has the network's parameter count [%s]" % (n, _c(p)), site, "gradient of %s has shape %s; the network has %s parameters" % (n, g.shape, want))
+                            ok = __import__("qsa.values", fromlist=["dims_equal"]).dims_equal(g.shape[0], want[0]) if len(g.shape) == 1 else False  # an unknown length is undecided
+                            ck.check(ok, "C03.R2", inst + ":%s gradient has the network's parameter count [%s]" % (n, _c(p)), site, "gradient of %s has shape %s; the network has %s parameters" % (n, g.shape, want))
                     errs = p.interp.shape_errors
                     ck.check(not errs, "C03.R2", inst + ":shapes consistent [%s]" % _c(p), errs[0][0] if errs else site, "shape error with nv, nh, na distinct: %s" % (errs[0][1] if errs else ""))
     # ------------------------------------------------------------------ R2 layout = registration order ; R6 derivative table
@@ -100,7 +100,7 @@ def run(ck):
                     m, g, R = p.value
                     want = layout_dim(it, m)
                     lead = () if reduce else ("B",)
-                    ck.check(g.shape == lead + (want,), "C03.R2", inst + ":segments in parameter registration order", esite,
+                    ck.check(shape_is(g, lead + (want,)), "C03.R2", inst + ":segments in parameter registration order", esite,
                              "gradient vector layout is %s; the parameters are registered as %s (hidden-major weights first)" % (show(g.shape), show(lead + (want,))), layout=show(g.shape))
                     segs = getattr(g.obj, "segments", None)
                     names = [n for n, _ in module_params(it, m)]
